@@ -4,6 +4,7 @@ import (
 	"encoding/json"
 	"fmt"
 	"os"
+	"regexp"
 	"strings"
 
 	"gopkg.in/yaml.v3"
@@ -26,15 +27,27 @@ func init() {
 	props["C10"] = c10
 	// known findings are identified by the rendering in which the carrier defect shows (known_findings.txt)
 	classifiers["C10"] = func(v Violation) string {
+		q, _ := v.Case["baseline_query"].(string)
 		switch v.Case["rendering"] {
 		case "named-strings-bools":
 			return "named-string-or-bool-values"
 		case "pointers":
 			return "pointer-inside-interface-slot"
+		case "structs":
+			if wholeObjectQuery.MatchString(q) {
+				return "struct-vs-map-whole-object"
+			}
+		case "struct-pointer-fields":
+			return "pointer-to-container"
+		case "nil-containers":
+			return "nil-vs-empty-container"
 		}
 		return ""
 	}
 }
+
+// queries that apply a whole-object function (aggregate, Select, RemoveKeys, Any, IsEmpty, First) to an object
+var wholeObjectQuery = regexp.MustCompile(`^\$\.(o|z)\.(Sum|Average|Minimum|Maximum|Select|RemoveKeysBy|Any|IsEmpty|IsNotEmpty|IsNullOrEmpty|First)`)
 
 type rendering struct {
 	name string
@@ -184,6 +197,36 @@ func renderingsC10() []rendering {
 				return x
 			})
 		}},
+		{"struct-pointer-fields", func(d *D) *D {
+			// the root as a struct whose slice- and map-valued fields are POINTERS to them (typed fields)
+			st := &D{Tag: "st"}
+			for i, k := range d.Ks {
+				v := d.Vs[i]
+				if v.Tag == "sl" || v.Tag == "m" {
+					st.Fs = append(st.Fs, h.Field{Name: upperFirst(k.S), Exported: true, Iface: false, V: h.PtrTo(v)})
+				} else {
+					st.Fs = append(st.Fs, h.Field{Name: upperFirst(k.S), Exported: true, Iface: true, V: v})
+				}
+			}
+			return st
+		}},
+		{"nil-containers", func(d *D) *D {
+			first := true
+			return mapD(d, func(x *D) *D {
+				if x.Tag == "sl" && len(x.Xs) == 0 {
+					n := *x
+					n.IsNil = true
+					return &n
+				}
+				if x.Tag == "m" && len(x.Ks) == 0 && !first {
+					n := *x
+					n.IsNil = true
+					return &n
+				}
+				first = false
+				return x
+			})
+		}},
 		{"named-numerics", func(d *D) *D {
 			return mapD(d, func(x *D) *D {
 				if x.Tag == "f" && x.F == "" {
@@ -254,7 +297,7 @@ func (g *c10gen) doc() *D {
 		strs = append(strs, h.Str(c10Strs[r.Intn(len(c10Strs))]))
 	}
 	return h.Obj("rows", h.SliceAny(rows...), "nums", h.SliceAny(nums...), "strs", h.SliceAny(strs...),
-		"o", h.Obj("a", g.num(), "b", g.num()), "s", h.Str(c10Strs[r.Intn(len(c10Strs))]), "n", g.num(), "t", h.Bool(true), "limits", h.Obj("lo", h.FloatD(1), "hi", h.FloatD(5)))
+		"o", h.Obj("a", g.num(), "b", g.num()), "z", h.Obj("p", h.FloatD(0), "q", h.Str("")), "none", h.SliceAny(), "s", h.Str(c10Strs[r.Intn(len(c10Strs))]), "n", g.num(), "t", h.Bool(true), "limits", h.Obj("lo", h.FloatD(1), "hi", h.FloatD(5)))
 }
 
 func (g *c10gen) query() string {
@@ -269,6 +312,7 @@ func (g *c10gen) query() string {
 		"$.s.Contains(\"a\")", "$.s.Left(2)", "$.s.Equal(\"abc\")", "$.s.ReplaceAll(\"a\",\"b\")", "$.s.IsEmpty()", "$.s.NotEqual($.strs.Last())",
 		"$.t.Not()", "$.t.Equal(true)", "{$.t,$.n.GreaterOrEqual(0)}", "{OR,$.s.Equal(\"zz\"),$.rows.Any()}", "$.t.Equal({$.n.Less(100)})",
 		"$.missing?.IsNull()", "$.o.zz?.IsNull()", "$.rows.Index(0).tags.Count()", "$.o.IsNull()", "$.rows.IsEmpty()", "$.nums.IsNotEmpty()", "$.o[@.a.GreaterOrEqual($.o.b)]", "$.o[@.a.Equal($.o.a)].b", "$.o[@.a.Less(0)]",
+		"$.o.Sum()", "$.o.Maximum()", "$.o.Select(\"$\").Count()", "$.o.RemoveKeysByPrefix(\"a\")", "$.z.IsEmpty()", "$.z.Any()", "$.o.IsEmpty()", "$.none.IsNull()", "$.none.Count()", "$.none.zz?.IsNull()", "$.strs.IsNull()",
 		"$.rows.AsArray().Count()", "$.n.AsArray().First()", "$.limits.hi.Subtract($.limits.lo)", "$.rows[@.tags.Any()].name", "$.rows[@.tags[@.Equal(\"tag\")].Any()].k",
 	}
 	return qs[r.Intn(len(qs))]
